@@ -151,6 +151,8 @@ where
     pid_puback: HashSet<PacketIdType>,
     pid_pubrec: HashSet<PacketIdType>,
     pid_pubcomp: HashSet<PacketIdType>,
+    // QoS 2 exchanges whose PUBREC arrived and whose PUBREL has not been sent yet
+    pid_pubrel_pending: HashSet<PacketIdType>,
 
     need_store: bool,
     // Store for retransmission packets
@@ -261,6 +263,7 @@ where
             pid_puback: HashSet::default(),
             pid_pubrec: HashSet::default(),
             pid_pubcomp: HashSet::default(),
+            pid_pubrel_pending: HashSet::default(),
             need_store: false,
             store: GenericStore::new(),
             offline_publish: false,
@@ -786,6 +789,14 @@ where
                     events.push(GenericEvent::NotifyPacketIdReleased(packet_id));
                 }
             }
+
+            // Release packet IDs of exchanges that were waiting for their PUBREL to be sent
+            for packet_id in self.pid_pubrel_pending.drain() {
+                if self.pid_man.is_used_id(packet_id) {
+                    self.pid_man.release_id(packet_id);
+                    events.push(GenericEvent::NotifyPacketIdReleased(packet_id));
+                }
+            }
         }
 
         // Cancel all timers
@@ -1243,6 +1254,7 @@ where
         self.pid_puback.clear();
         self.pid_pubrec.clear();
         self.pid_pubcomp.clear();
+        self.pid_pubrel_pending.clear();
         self.store.clear();
         self.qos2_publish_handled.clear();
     }
@@ -1866,6 +1878,7 @@ where
             self.store.add(packet.clone().try_into().unwrap()).unwrap();
         }
 
+        self.pid_pubrel_pending.remove(&packet_id);
         self.pid_pubcomp.insert(packet_id);
         if self.status == ConnectionStatus::Connected {
             events.push(GenericEvent::RequestSendPacket {
@@ -1902,6 +1915,7 @@ where
             self.store.add(packet.clone().try_into().unwrap()).unwrap();
         }
 
+        self.pid_pubrel_pending.remove(&packet_id);
         self.pid_pubcomp.insert(packet_id);
         if self.status == ConnectionStatus::Connected {
             events.push(GenericEvent::RequestSendPacket {
@@ -3145,6 +3159,7 @@ where
                 let packet_id = packet.packet_id();
                 if self.pid_pubrec.remove(&packet_id) {
                     self.store.erase(ResponsePacket::V3_1_1Pubrec, packet_id);
+                    self.pid_pubrel_pending.insert(packet_id);
                     if self.auto_pub_response && self.status == ConnectionStatus::Connected {
                         let pubrel = v3_1_1::GenericPubrel::<PacketIdType>::builder()
                             .packet_id(packet_id)
@@ -3179,6 +3194,7 @@ where
                     self.store.erase(ResponsePacket::V5_0Pubrec, packet_id);
                     let reason_code = packet.reason_code();
                     if reason_code.is_none() || reason_code.unwrap() == PubrecReasonCode::Success {
+                        self.pid_pubrel_pending.insert(packet_id);
                         if self.auto_pub_response && self.status == ConnectionStatus::Connected {
                             let pubrel = v5_0::GenericPubrel::<PacketIdType>::builder()
                                 .packet_id(packet_id)
